@@ -154,6 +154,14 @@ fn main() {
         None => args[2].clone(),
     };
     let input: Vec<u8> = parse_list(text.trim()).into_iter().map(|x| x as u8).collect();
+    if side == "fss" {
+        match std::panic::catch_unwind(|| hcobs::find_stuff_sequence(&input)) {
+            Err(_) => println!("FSS PANIC"),
+            Ok(None) => println!("FSS none"),
+            Ok(Some(i)) => println!("FSS {}", i),
+        }
+        return;
+    }
     if side == "stream-growth" {
         let opt = |s: &str| if s == "none" { None } else { Some(s.parse::<u64>().unwrap()) };
         stream_growth_side(&input, opt(&args[3]).map(|x| x as usize), opt(&args[4]));
